@@ -17,6 +17,8 @@
 (*                 values newest first, then SetRaw the pushed ones        *)
 (*   ExchApply     syncWithPeer: SetRaw one batch (<= ApplyBatch) of the   *)
 (*                 streamed values                                         *)
+(*   Restart       keyvaluestorage.New on an existing collection: the      *)
+(*                 index is rebuilt from the rows, the heads entry written *)
 (* Every write can be hit by a storage fault (the transaction does not     *)
 (* commit).  The as-is gaps of the implementation are switchable           *)
 (* deviations: FIX_x = TRUE is the repaired behaviour (registered configs),*)
@@ -228,6 +230,14 @@ ExchApply(f) ==
                         ELSE [exch EXCEPT !.reply = <<>>, !.phase = "done", !.clean = FALSE]  \* the pull is aborted
   /\ UNCHANGED clock
 
+\* the service is closed and opened again over the same database (not in the middle of an exchange
+\* of this store): innerstorage.New reads every row into a fresh index and rewrites the heads entry
+Restart(s) ==
+  /\ ~(exch.phase # "idle" /\ s \in {exch.c, exch.r})
+  /\ index' = [index EXCEPT ![s] = IndexOf(vals[s])]
+  /\ entry' = [entry EXCEPT ![s] = IndexOf(vals[s])]
+  /\ UNCHANGED <<vals, received, clock, exch>>
+
 ExchFinish ==
   /\ exch.phase = "done"
   /\ exch' = Idle
@@ -251,6 +261,7 @@ Next ==
   \/ \E f \in Faults : ExchServe(f)
   \/ \E f \in Faults : ExchApply(f)
   \/ ExchFinish
+  \/ \E s \in Stores : Restart(s)
 
 Spec == Init /\ [][Next]_vars
 
